@@ -95,7 +95,7 @@ func H_C18_ComboKeys() {
 	vrt.Unwind(5000)
 	ctxRegimes := []l10n.Code{"", "ES", "PT"}
 	countries := []l10n.TaxCountryCode{"", "ES", "FR", "JP"} // JP: no regime published
-	cats := []cbc.Code{"VAT", "IRPF", "XXX"}
+	cats := []cbc.Code{"VAT", "IRPF", "IPSI", "XXX"} // IPSI: a Spanish category that defines no rate keys
 	rates := []cbc.Key{"", "standard", "pro", "bogus"}
 	cr := ctxRegimes[vrt.Choice("doc-regime", len(ctxRegimes))]
 	c := &Combo{
